@@ -7,7 +7,9 @@
 (* reply, Cancel / Drain are context cancellation and shutdown().  In the content variant a     *)
 (* reply may carry content: the first such reply wins (CAS) and cancels the lookup.             *)
 (* Deviations (regression mutants): "AskTwice" (asked not recorded), "NoSelfMark" (local node   *)
-(* not pre-marked as asked), "AlphaPlus" (one query too many), "NoSeenFilter".                 *)
+(* not pre-marked as asked), "AlphaPlus" (one query too many), "NoSeenFilter", "DrainMiscount"  *)
+(* (seed C10-3: advance() folds every reply already waiting in the channel into one wake-up but *)
+(* counts one finished query - the in-flight counter stays too high and the lookup never ends). *)
 EXTENDS Integers, Sequences, FiniteSets, TLC, Json
 
 CONSTANTS Peers,      \* peer ids (naturals); distance to target = the id itself (smaller = closer)
@@ -72,10 +74,12 @@ Reply(p) == /\ p \in inflight
 
 \* lookup goroutine consumes one reply
 Consume == /\ phase = "run" /\ replyCh # <<>> /\ queries >= 0 /\ started
-           /\ LET ns == IF "NoSeenFilter" \in Devs THEN Head(replyCh) ELSE Head(replyCh) \ seen IN
+           /\ LET batch == IF "DrainMiscount" \in Devs THEN UNION {replyCh[i] : i \in 1..Len(replyCh)} ELSE Head(replyCh)
+                  ns == IF "NoSeenFilter" \in Devs THEN batch ELSE batch \ seen IN
               /\ seen' = seen \cup ns /\ result' = PushAll(result, ns)
-           /\ replyCh' = Tail(replyCh) /\ queries' = queries - 1 /\ started' = FALSE
-           /\ UNCHANGED <<asked, inflight, cancelled, phase, qlog, winner, supplied, hist>>
+           /\ replyCh' = (IF "DrainMiscount" \in Devs THEN <<>> ELSE Tail(replyCh)) /\ queries' = queries - 1 /\ started' = FALSE
+           /\ hist' = Append(hist, [ev |-> "consume", p |-> 0, ans |-> {}, content |-> FALSE])
+           /\ UNCHANGED <<asked, inflight, cancelled, phase, qlog, winner, supplied>>
 
 \* cancellation: shutdown drains outstanding replies
 \* the select in advance() may take the cancellation branch whenever the context is cancelled - by the caller
